@@ -21,7 +21,7 @@ def parseRat? (s : String) : Option Rat :=
 def parseList? {α} (p : String → Option α) (s : String) : Option (List α) :=
   if s = "-" then some [] else (s.splitOn ",").mapM p
 
-def parsePair? {α β} (p : String → Option α) (q : String → Option β) (s : String) : Option (α × β) :=
+def parsePair? {α β : Type} (p : String → Option α) (q : String → Option β) (s : String) : Option (α × β) :=
   match s.splitOn ":" with
   | [a, b] => do let x ← p a; let y ← q b; pure (x, y)
   | _ => none
